@@ -200,10 +200,12 @@ func checkC19(c *mc.Ctx) {
 			c.Ev.AddScenario(mc.Scenario{Name: fmt.Sprintf("skip-vectors:%s:%s", st.Name, api), SpaceSize: total, Executed: done, Exhaustive: done == total, Bound: fmt.Sprintf("all 2^%d per-packet skip decisions", n)})
 			// structured predicates
 			preds := map[string]func(p *astits.Packet) bool{
-				"pusi":        func(p *astits.Packet) bool { return p.Header.PayloadUnitStartIndicator },
-				"has-af":      func(p *astits.Packet) bool { return p.Header.HasAdaptationField },
-				"has-pcr":     func(p *astits.Packet) bool { return p.AdaptationField != nil && p.AdaptationField.HasPCR },
-				"rai":         func(p *astits.Packet) bool { return p.AdaptationField != nil && p.AdaptationField.RandomAccessIndicator },
+				"pusi":    func(p *astits.Packet) bool { return p.Header.PayloadUnitStartIndicator },
+				"has-af":  func(p *astits.Packet) bool { return p.Header.HasAdaptationField },
+				"has-pcr": func(p *astits.Packet) bool { return p.AdaptationField != nil && p.AdaptationField.HasPCR },
+				"rai": func(p *astits.Packet) bool {
+					return p.AdaptationField != nil && p.AdaptationField.RandomAccessIndicator
+				},
 				"not-payload": func(p *astits.Packet) bool { return !p.Header.HasPayload },
 			}
 			pidset := map[uint16]bool{}
